@@ -112,4 +112,10 @@ CHECKS = {
         "note": "A robustness claim: the model contributes the systematic input space; nothing is proved about inputs no generated or corpus file reaches. Nesting deeper than 64 is outside the property.",
         "technique": "TLA+ spec (MC_Totality input-class product) + TLC generation + all detectors in two builds + TLC trace validation",
     },
+    "C19": {
+        "text": "TLC generates files of two and three top-level items in every order from a pool of items with disjoint names; every file, multi-item corpus file and random concatenation is analysed whole and with all but one item blanked out (line feeds and pragmas kept) by the 28 detectors in scope; TV_Compose checks on the projected tree that the items are independent and accepts iff whole = union of the parts.",
+        "design_ref": "section 7 C19",
+        "note": "Compares runs of the same build; files whose items mention each other's state-variable names are recognised by the trace specification and left out.",
+        "technique": "TLA+ spec (Compose.tla) + TLC-generated item combinations + blanked re-analysis with the real detectors + TLC trace validation",
+    },
 }
